@@ -140,3 +140,18 @@ def is_json_name(fn, pel_name, eid):
         return bool(mid) and all(c in "0123456789abcdefABCDEF" for c in mid) and int(mid, 16) == eid
     except ValueError:
         return False
+
+
+def symlink_entries(rng, ents, store, frac=0.3):
+    """turn some of the PEL files into symbolic links to regular files kept in `store` (an archive directory elsewhere): a
+    link to a file is a file of the directory for every mode.  Returns the number of links made."""
+    import os
+    os.makedirs(store, exist_ok=True)
+    n = 0
+    for e in ents:
+        if e.path and os.path.isfile(e.path) and not os.path.islink(e.path) and "/" not in e.name and rng.random() < frac:
+            tgt = os.path.join(store, "kept_%d_%s" % (n, e.name))
+            os.replace(e.path, tgt)
+            os.symlink(tgt, e.path)
+            n += 1
+    return n
